@@ -3,6 +3,7 @@
   the model's `requeue` and the queue test of `Book.withdraw`: current-round liquidity > 0.
 -/
 import Sge.Gen.Kernels
+import SgeProofs.Lemmas.KernelsTie
 import Sge.Core.Orderbook
 namespace Sge.KernelsTie
 open Sge Sge.Core Sge.Gen.Kernels
@@ -12,8 +13,7 @@ theorem krn_tie_Eligible (crl : Int) :
     orderbook_OrderBookParticipation_IsEligibleForNextRound crl = decide ((0 : Int) < crl) := by
   first
     | rfl
-    | (unfold orderbook_OrderBookParticipation_IsEligibleForNextRound
-       simp only [decide_eq_decide]; omega)
+    | (unfold orderbook_OrderBookParticipation_IsEligibleForNextRound; krn_close)
 
 /-- the same test as `Book.withdraw` writes it -/
 theorem krn_tie_Eligible_withdraw (crl : Int) :
